@@ -3,6 +3,7 @@ import GenjaxModel.Proofs.AdevProg
 import GenjaxModel.Proofs.AdevProgIO
 import Mathlib.Algebra.Field.Rat
 import Mathlib.Tactic.NormNum
+import GenjaxModel.Proofs.Interp
 /-!
 # C11 — ADEV value and gradient estimators are unbiased (exact for enumeration)
 
@@ -256,5 +257,22 @@ theorem C11_asis_cond_branch_cex :
     (flipEnum p (sq (flipEnum q (x true) (x false))) (sq p)).v = 3303/25000 := by
   simp only [flipEnum, Dual.add, Dual.mul, Dual.sub, Dual.const]
   norm_num
+
+/-- where a site gets its estimator semantics (Model/Interp.lean, kinds for ADEV: cond interpreted, nested jit /
+    checkpoint evaluated in place since fix d3d169e, scan / while / custom_jvp re-bound): the sites the interpreter
+    handles and the sites JAX's own rule inlines partition the program's sites; every site is handled (once, in order)
+    iff no re-bound equation holds one (`_partial`: open finding adev-site-in-uninterpreted-call is the other case) -/
+theorem C11_sites_reach_the_interpreter_partial (j : Interp.J) :
+    ((Interp.runOld j).1 ++ (Interp.runOld j).2).Perm j.sites ∧
+    (j.blocked = false → (Interp.runOld j).1 = j.sites) ∧
+    ((Interp.runOld j).2 ≠ [] ↔ j.blocked = true) := by
+  have hesc := Interp.runOld_escapes_iff j
+  have hblk := Interp.run_none_iff_blocked j
+  refine ⟨Interp.runOld_partition j, ?_, hesc.trans hblk⟩
+  intro h
+  have hn : Interp.run j ≠ none := by
+    intro hr; have := hblk.mp hr; rw [h] at this; exact Bool.noConfusion this
+  exact Interp.run_handles_all j _ (Interp.runOld_eq_run j hn)
+
 
 end Genjax.Adev
